@@ -19,7 +19,7 @@ Definitions used in the statements (`Lemmas/DpLive*.lean`):
 * `Good j` — master-side invariant `PInv` (C05/C08), matching configuration (`Matched`: same address,
   ident, parameter length, configuration bytes, image lengths), well-formed slave memory.
 -/
-import ProfiVerif.Lemmas.DpLive
+import ProfiVerif.Lemmas.DpLiveRuns
 
 namespace PV.C07
 open PV PV.Dp PV.Live
@@ -207,6 +207,83 @@ theorem live_from_everywhere_full_false : ¬ live_from_everywhere_full := by
   rw [← h6] at this
   have hst : j'.p.state = .validateConfig := this.1
   simp [Peripheral.isRunning, hst] at h2
+
+/-! ## `offline_online` -/
+
+/-- **A peripheral that stops answering is reported Offline — exactly once.**  From every good state
+with a live peripheral (retry count `r`), if from now on every request is lost: the visits
+`1 … max_retry_limit + 1 - r` retransmit without any event, visit `max_retry_limit + 2 - r` raises
+`Offline`, and no later visit raises any event; `is_live()` is false exactly from that visit on. -/
+theorem offline_reported_once {j : PJ} (hg : Good j) (hl : j.p.isLive = true) (n : Nat) :
+    ∃ j' evs, j.run (List.replicate n (.visit false .lossReq)) = some (j', evs) ∧
+      evs = (if j.fp.maxRetry + 2 - j.p.retry ≤ n then [.offline] else []) ∧
+      (j'.p.isLive = false ↔ j.fp.maxRetry + 2 - j.p.retry ≤ n) := by
+  obtain ⟨j', evs, h1, _, _, _, h5⟩ := lost_sim n hg
+  have hs : (ctl j).core.st ≠ .offline := by
+    simpa [Peripheral.isLive, ctl, coreOf] using hl
+  obtain ⟨c', h6, h7⟩ := lost_run hg.fp.retry_lo (iz := (j.s.cfg.inLen == 0)) hs hg.pinv.retry_le n
+  rw [h6, Prod.mk.injEq] at h5
+  refine ⟨j', evs, h1, h5.2, ?_⟩
+  have h7' : c'.core.st = .offline ↔ j.fp.maxRetry + 2 - j.p.retry ≤ n := h7
+  rw [← h7', ← h5.1]
+  simp [Peripheral.isLive, ctl, coreOf]
+
+/-- **A peripheral that answers again is reported Online and Configured again.**  From every good
+state satisfying the joint invariant with an offline peripheral, the events of `n ≥ 8` fault-free visits
+are `Online`, `Configured`, and then only `DataExchanged` / `Diagnostics`. -/
+theorem online_configured_again {j : PJ} (hg : Good j) (hj : JInv j) (ho : j.p.isLive = false)
+    {n : Nat} (hn : 8 ≤ n) :
+    ∃ j' rest, j.quiet n = some (j', .online :: .configured :: rest) ∧
+      ∀ e ∈ rest, e = .dataExchanged ∨ e = .diagnostics := by
+  obtain ⟨j', evs, h1, _, _, _, h5⟩ := quiet_sim_ev n hg
+  have hs : (ctl j).core.st = .offline := by
+    simpa [Peripheral.isLive, ctl, coreOf] using ho
+  obtain ⟨rest, h6, h7⟩ := back_online hg.fp.retry_lo hj hs hn
+  rw [Prod.ext_iff] at h5
+  have h5' : evs = (crunN j.fp.maxRetry (j.s.cfg.inLen == 0) (.visit false .ok) n (ctl j)).2 := h5.2
+  refine ⟨j', rest, by rw [h1, h5', h6], ?_⟩
+  intro e he
+  have := h7 e he
+  cases e <;> simp_all [isDxEvent]
+
+/-- **offline_online.**  Along any history from start-up: if the peripheral is live and then stops
+answering for `s ≥ max_retry_limit + 2 - retry` visits, exactly one `Offline` event is raised; when it
+answers again, `Online` and `Configured` follow within 8 visits (then only data-exchange events), and
+it is running from visit `max_retry_limit + 8` on. -/
+theorem offline_online {j0 : PJ} (hg0 : Good j0) (hi : Initial j0) (es : List PEnv)
+    (hw : ∀ e ∈ es, e.WellFormed) :
+    ∃ j evs0, j0.run es = some (j, evs0) ∧
+      (j.p.isLive = true → ∀ s, j.fp.maxRetry + 2 - j.p.retry ≤ s →
+        ∃ j1, j.run (List.replicate s (.visit false .lossReq)) = some (j1, [.offline]) ∧ j1.p.isLive = false ∧
+          ∀ n, 8 ≤ n → ∃ j2 rest, j1.quiet n = some (j2, .online :: .configured :: rest) ∧
+            (∀ e ∈ rest, e = .dataExchanged ∨ e = .diagnostics) ∧ (K j0.fp ≤ n → j2.p.isRunning = true)) := by
+  obtain ⟨j, evs0, h1, hg, hj, hfp⟩ := jinv_reachable hg0 hi es hw
+  refine ⟨j, evs0, h1, ?_⟩
+  intro hl s hs
+  obtain ⟨j1, evs, h2, h3, h4⟩ := offline_reported_once hg hl s
+  rw [if_pos hs] at h3
+  subst h3
+  -- the state after the silent period is again reachable, hence invariant
+  have hw1 : ∀ e ∈ List.replicate s (PEnv.visit false .lossReq), e.WellFormed := by
+    intro e he; rw [List.eq_of_mem_replicate he]; trivial
+  obtain ⟨ja, ea, ha1, ha2, ha3, ha4, ha5, ha6⟩ := run_sim _ hg hw1
+  rw [h2] at ha1
+  simp only [Option.some.injEq, Prod.mk.injEq] at ha1
+  obtain ⟨rfl, _⟩ := ha1
+  have hj1 : JInv j1 := by
+    have := jinv_run hg.fp.retry_lo (j.s.cfg.inLen == 0) j.s.cfg.inLen
+      (List.replicate s (PEnv.visit false .lossReq)) (ctl j) hj
+    rw [← ha6] at this
+    unfold JInv; rw [ha3, ha5]; exact this
+  refine ⟨j1, h2, h4.mpr hs, ?_⟩
+  intro n hn
+  obtain ⟨j2, rest, h5, h6⟩ := online_configured_again ha2 hj1 (h4.mpr hs) hn
+  refine ⟨j2, rest, h5, h6, ?_⟩
+  intro hk
+  obtain ⟨j2', evs', h7, h8⟩ := live_from_everywhere ha2 hj1 (n := n) (by unfold K at *; rw [ha3, hfp]; exact hk)
+  rw [h5] at h7
+  simp only [Option.some.injEq, Prod.mk.injEq] at h7
+  rw [h7.1]; exact h8
 
 /-! ## Non-vacuity -/
 
